@@ -72,11 +72,12 @@ def World.nextMask (w : World) : World × Mask :=
 
 /-- `CheckConnectionReset` + the `Terminated` assignment of `WebSocketContext::check_connection_reset` -/
 def World.checkConnectionReset (w : World) (r : Res α) : World × Res α :=
-  match r with
-  | .err (.io .reset) =>
-    if !w.c.state.canRead then (w.setState .terminated, .err .connectionClosed)
-    else (w, r)
-  | _ => (w, r)
+  let r' : Res α := match r with
+    | .err (.io .reset) => if !w.c.state.canRead then .err .connectionClosed else r
+    | _ => r
+  match r' with
+  | .err .connectionClosed => (w.setState .terminated, r')
+  | _ => (w, r')
 
 def Res.isWriteBufferFull : Res α → Bool
   | .err (.writeBufferFull _) => true
